@@ -25,7 +25,7 @@ import traceback
 VERIF = os.path.dirname(os.path.dirname(os.path.abspath(__file__)))
 WORK = os.path.join(VERIF, ".work")
 NPROC = int(os.environ.get("VERIF_NPROC", "16"))
-MAX_REPLAYS = 25
+MAX_REPLAYS = int(os.environ.get("VERIF_MAX_REPLAYS", "40"))
 
 
 def h64(obj):
@@ -112,8 +112,11 @@ class Unit:
     def count(self, name, k=1):
         self.counters[name] = self.counters.get(name, 0) + k
 
-    def fail(self, case_id, payload, key=None, what=None):
-        self.fails.append({"id": case_id, "key": key, "payload": payload, "what": what})
+    def fail(self, case_id, payload, key=None, what=None, sig=None):
+        """sig: optional coarse signature; at most 2 replays are written per signature"""
+        self.fails.append({"id": case_id, "key": key, "payload": payload, "what": what, "sig": sig})
+        if sig is not None:
+            self.count("violation-signature:" + sig)
 
     def pack(self):
         return (self.n, self.nt, self.ids, self.fails, self.samples, self.counters, self.states, self.transitions)
@@ -149,6 +152,7 @@ class Ctx:
         self.known = load_known(self.prop)
         self.replay_dir = os.path.join(VERIF, "replays", self.prop)
         self.harness_errors = []
+        self.sigs = {}
         global RUN_DIR
         RUN_DIR = mkwork(self.prop.lower())
         self.workdir = RUN_DIR
@@ -187,15 +191,20 @@ class Ctx:
         for k, v in counters.items():
             self.counters[k] = self.counters.get(k, 0) + v
         for f in fails:
-            self.violation(f["id"], f["payload"], f.get("key"), f.get("what"))
+            self.violation(f["id"], f["payload"], f.get("key"), f.get("what"), f.get("sig"))
 
     # ---- violations ---------------------------------------------------------------------
-    def violation(self, case_id, payload, key=None, what=None):
+    def violation(self, case_id, payload, key=None, what=None, sig=None):
         if key is not None and key in self.known and self.known[key]["status"] == "open":
             hit = self.known_hits.setdefault(key, [0, case_id])
             hit[0] += 1
             return
         self.nviol += 1
+        if sig is not None:
+            n = self.sigs.get(sig, 0)
+            self.sigs[sig] = n + 1
+            if n >= 2:
+                return
         if len(self.violations) < MAX_REPLAYS:
             os.makedirs(self.replay_dir, exist_ok=True)
             name = "%016x.json" % h64(case_id)
